@@ -19,7 +19,7 @@ OPT_NOTE = ("optimiser model (coq/model/Optimiser.v) replayed bit-for-bit agains
             "MCOptimiser::optimise_state on scripted and real states")
 
 PROPS = {
-    "C09": dict(props_file="props/C09.v", engines=[("cli", dict(quick=4, thorough=60)), ("opt", dict(focus="C06", quick=120, thorough=3000))],
+    "C09": dict(props_file="props/C09.v", engines=[("cli", dict(quick=4, thorough=60)), ("opt", dict(focus="C09", quick=160, thorough=4000))],
                 design="DESIGN.md section 4 C09"),
     "C10": dict(props_file="props/C10.v", needs_gen=True, engines=[("cli", dict(quick=10, thorough=120)), ("tables", dict(groups=False, labels=True))],
                 design="DESIGN.md section 4 C10"),
@@ -143,9 +143,13 @@ def opt_run(prop, specs, tag):
     if rc != 0:
         res["mismatches"].append(dict(engine="opt", case="(harness)", what="harness opt-run failed: " + out[-500:]))
         return res
+    hang = None
     for l in open(rep):
         l = l.rstrip("\n")
-        if l.startswith("M "):
+        if l.startswith("HANG "):
+            hang = l[5:]
+            res["mismatches"].append(dict(engine="opt", case=hang, what="the implementation did not return on this case; the model does"))
+        elif l.startswith("M "):
             spec, _, stats = l[2:].partition(" | ")
             kv = dict(t.split("=", 1) for t in stats.split() if "=" in t)
             res["metas"].append((spec, kv))
@@ -156,6 +160,10 @@ def opt_run(prop, specs, tag):
     # the model, sharded over the case files
     import concurrent.futures
     shards = sorted(os.path.join(wd, fn) for fn in os.listdir(wd) if fn.startswith("cases_%s." % tag))
+    if hang:
+        for p in shards:
+            os.remove(p)
+        return res
 
     def run_shard(p):
         return sh([DRIVER, "opt", p], timeout=3000)
